@@ -69,6 +69,8 @@ class ExprMixin:
                 return BuiltinV("spec:" + name)
         mod = st.loc.get("$module")
         if mod is not None:
+            if (mod, name) in self.const_overrides:
+                return self.const_overrides[(mod, name)]
             r = self.repo.resolve_name(mod, name)
             if r is not None:
                 return self.resolved_value(st, r, name)
